@@ -4,7 +4,7 @@ MUTANTS = [
     {'name': 'revert: counts the staves', 'revert': 'counts the staves', 'expect': 'F7c'},
     {'name': 'revert: <sound tempo', 'revert': '<sound tempo', 'expect': 'F7b'},
     {'name': 'exporter writes an unread tag', 'file': 'partitura/io/exportmusicxml.py', 'old': '        stem_e = etree.SubElement(note_e, "stem")', 'new': '        stem_e = etree.SubElement(note_e, "stem-direction")', 'expect': 'F5a'},
-    {'name': 'importer drops a Fermata', 'file': 'partitura/io/importmusicxml.py', 'old': '_add_tempo_if_unique(position, part, tempo)', 'new': 'tempo', 'expect': 'F7b'},
+    {'name': 'importer drops the sound tempo', 'file': 'partitura/io/importmusicxml.py', 'old': '        _add_tempo_if_unique(position, part, tempo)\n\n\ndef _handle_note', 'new': '        tempo\n\n\ndef _handle_note', 'expect': 'F7b'},
     {'name': 'group popped without stop', 'file': 'partitura/io/exportmusicxml.py', 'old': '            # close group\n            etree.SubElement(\n                partlist_e,\n                "part-group",\n                number="{}".format(group_stack[-1].number),\n                type="stop",\n            )\n            # remove from stack\n            group_stack.pop()', 'new': '            # remove from stack\n            group_stack.pop()', 'expect': 'GROUPS'},
     {'name': 'exporter mutates the part', 'file': 'partitura/io/exportmusicxml.py', 'old': '        for measure in part.iter_all(score.Measure):\n            part_e.append', 'new': '        for measure in part.iter_all(score.Measure):\n            measure.number = measure.number\n            part_e.append', 'expect': 'F1'},
     {'name': 'stack not drained', 'file': 'partitura/io/exportmusicxml.py', 'old': '    close_group_stack()\n\n    if out:', 'new': '    if out:', 'expect': 'GROUPS'}]
